@@ -259,6 +259,24 @@ class Sym:
                 if not ok1 or len(s.handlers) != 1 or s.finalbody:
                     return False
                 h = s.handlers[0]
+                if s.orelse:
+                    # try: X = A  except E: pass  else: return f(X) ; ...rest...     ==   try(f(A)) except E: (value of rest)
+                    if collect is None or r1 or not all(isinstance(x, ast.Pass) for x in h.body) or not self._terminates(s.orelse):
+                        return False
+                    r_else, rest_rets = [], []
+                    if not self._run(list(s.orelse), e1, depth, r_else, guard) or not r_else:
+                        return False
+                    if not self._run(list(stmts[i + 1:]), dict(env), depth, rest_rets, guard) or not rest_rets:
+                        return False
+
+                    def fold_(rets):
+                        val = rets[-1][1]
+                        for test_, v_ in reversed(rets[:-1]):
+                            val = mkphi(test_, v_, val) if test_ is not None else v_
+                        return val
+                    exc = unparse(h.type).strip("()") if h.type is not None else "BaseException"
+                    collect.append((guard, mktry(fold_(r_else), exc, fold_(rest_rets))))
+                    return True
                 e2 = dict(env)
                 r2 = []
                 ok2 = self._run(list(h.body), e2, depth, r2 if collect is not None else None, guard)
@@ -622,6 +640,11 @@ class Sym:
             return ("const", None)
         if isinstance(e, ast.Constant):
             return ("const", e.value)
+        if isinstance(e, ast.NamedExpr) and isinstance(e.target, ast.Name):
+            # (m := f(x)): the value, and the name stands for it from here on (comprehension filters bind for the element expression)
+            v = self.expr(e.value, env, depth)
+            env[e.target.id] = v
+            return v
         if isinstance(e, ast.Name):
             if e.id in env:
                 return env[e.id]
@@ -795,6 +818,17 @@ class Sym:
                 body = sub.function_value(bound, depth + 1)
                 if body[0] not in ("opaque", "loop", "mutated"):
                     return ("fn", bvs, body)
+        if cn == "map" and len(c.args) == 2 and not kws and isinstance(c.args[0], ast.Name) and c.args[0].id not in env \
+                and c.args[0].id in ("len", "str", "int", "float", "abs", "bool") and args[1][0] in ("comp", "list", "name", "param", "self", "call", "method", "attr"):
+            # map(len, xs) is [len(x) for x in xs]
+            bv = ("bv", self._fresh())
+            elt = ("len", bv) if c.args[0].id == "len" else ("str", bv) if c.args[0].id == "str" else ("call", c.args[0].id, (bv,), ())
+            args = (mkcomp("comp", elt, bv, args[1], ()),)
+            return args[0]
+        if cn == "filter" and len(c.args) == 2 and not kws and isinstance(c.args[0], ast.Constant) and c.args[0].value is None:
+            # filter(None, xs) is [x for x in xs if x]: the truth of each element decides
+            bv = ("bv", self._fresh())
+            return mkcomp("comp", bv, bv, args[1], (bv,))
         if cn == "sum" and len(args) >= 1 and args[0][0] == "comp":
             comp = args[0]
             start = args[1] if len(args) > 1 else ("const", 0)
